@@ -182,6 +182,68 @@ pub fn dispatch(f: &[&str]) -> String {
                 Err(e) => format!("FAIL {}", runfailure_text(&e)),
             }
         }
+        // ---- C07: rich <-> clvm conversions, hashes, equality
+        "r_to_clvm" => {
+            let _g = chialisp::compiler::clvm::NewStyleIntConversion::new(f[1] == "1");
+            let r = crate::rich::parse(f[2]).unwrap();
+            let mut a = Allocator::new();
+            match chialisp::compiler::clvm::convert_to_clvm_rs(&mut a, r) {
+                Ok(n) => format!("OK {}", val::print(&a, n)),
+                Err(e) => format!("ERR {}", runfailure_text(&e)),
+            }
+        }
+        "r_from_clvm" => {
+            let _g = chialisp::compiler::clvm::NewStyleIntConversion::new(f[1] == "1");
+            let mut a = Allocator::new();
+            let v = val::parse(&mut a, f[2]).unwrap();
+            match chialisp::compiler::clvm::convert_from_clvm_rs(&mut a, crate::rich::loc(), v) {
+                Ok(r) => format!("OK {}", crate::rich::print(&r)),
+                Err(e) => format!("ERR {}", runfailure_text(&e)),
+            }
+        }
+        "r_hash" => {
+            let _g = chialisp::compiler::clvm::NewStyleIntConversion::new(f[1] == "1");
+            let r = crate::rich::parse(f[2]).unwrap();
+            format!("OK {}", hex::encode(chialisp::compiler::clvm::sha256tree(r)))
+        }
+        "c_hash" => {
+            let mut a = Allocator::new();
+            let v = val::parse(&mut a, f[1]).unwrap();
+            format!("OK {}", chialisp::classic::clvm_tools::sha256tree::sha256tree(&mut a, v).hex())
+        }
+        "clvmr_hash" => {
+            let mut a = Allocator::new();
+            let v = val::parse(&mut a, f[1]).unwrap();
+            let b = clvmr::serde::node_to_bytes(&a, v).unwrap();
+            let mut cur = std::io::Cursor::new(b.as_slice());
+            match clvmr::serde::tree_hash_from_stream(&mut cur) {
+                Ok(h) => format!("OK {}", hex::encode(h)),
+                Err(e) => format!("ERR {:?}", e),
+            }
+        }
+        "r_eq" => {
+            let _g = chialisp::compiler::clvm::NewStyleIntConversion::new(true);
+            let x = crate::rich::parse(f[1]).unwrap();
+            let y = crate::rich::parse(f[2]).unwrap();
+            format!("OK {}", if *x == *y { 1 } else { 0 })
+        }
+        "r_hashstream" => {
+            use std::hash::{Hash, Hasher};
+            struct Rec(Vec<u8>);
+            impl Hasher for Rec {
+                fn finish(&self) -> u64 {
+                    0
+                }
+                fn write(&mut self, bytes: &[u8]) {
+                    self.0.extend_from_slice(bytes);
+                    self.0.push(0xfe); // separator between writes, for readability only
+                }
+            }
+            let x = crate::rich::parse(f[1]).unwrap();
+            let mut h = Rec(Vec::new());
+            x.hash(&mut h);
+            format!("OK {}", hex::encode(h.0))
+        }
         other => format!("BADOP {}", other),
     }
 }
